@@ -70,6 +70,7 @@ type OpSpec struct {
 	N    int     `json:"n,omitempty"`    // number of rows / snapshots
 	From int     `json:"from,omitempty"` // day offset of the first appended snapshot, or of the bound
 	Half bool    `json:"half,omitempty"` // bound falls between two days (half a day later)
+	Zone int     `json:"zone,omitempty"` // the bound is expressed in the zone UTC+Zone hours (same instant)
 	Seed int64   `json:"seed,omitempty"` // value seed
 	Vals []int64 `json:"vals,omitempty"`
 }
